@@ -1258,4 +1258,88 @@ theorem doc_assignment_old_counterexample :
     let v := "\n    New doc.\n\n    Text L{zq1}.\n    ".toList
     reportAfterDocAssignmentOld ⟨3, 1, false⟩ .xref 2 = .num 5 ∧ extractLinenum 12 v + 2 = 15 := by decide
 
+/-! ## hunter round -/
+
+/-! ### docutils' `splitlines()` line structure -/
+
+/-- the cleaned docstring contains none of U+001C–1E, U+0085, U+2028, U+2029 -/
+def noExtraBreaksClean (doc : List Char) : Bool :=
+  (cleandocLines doc).all fun l => (l.filter isExtraBreak).length == 0
+
+theorem sum_take_zero (ls : List (List Char)) (k : Nat)
+    (h : ∀ l ∈ ls, (l.filter isExtraBreak).length = 0) :
+    ((ls.take k).map fun l => (l.filter isExtraBreak).length).sum = 0 := by
+  induction ls generalizing k with
+  | nil => simp
+  | cons l ls ih =>
+    cases k with
+    | zero => simp
+    | succ k =>
+      simp only [List.take_succ_cons, List.map_cons, List.sum_cons]
+      rw [h l (by simp), ih k (fun x hx => h x (List.mem_cons_of_mem _ hx))]
+
+/-- Every `reported_line_*` theorem above speaks about `reportedLine`; it is what pydoctor prints
+(`reportedLineS`) **provided the cleaned docstring has no extra `splitlines()` boundary** —
+the hypothesis all reStructuredText / google / numpy statements need in addition. -/
+theorem reportedLineS_eq_partial (fmt : Fmt) (sl : Nat) (doc : List Char) (ln : Int) (im : Bool)
+    (c : Construct) (h : noExtraBreaksClean doc = true) :
+    reportedLineS fmt sl doc ln im c = reportedLine fmt sl doc ln im c := by
+  have hz : extraBreaksBefore doc (c.raw - dropped doc) = 0 := by
+    apply sum_take_zero
+    intro l hl
+    have := (List.all_eq_true.1 h) l hl
+    simpa using this
+  simp only [reportedLineS, hz]
+  cases reportedLine fmt sl doc ln im c <;> simp [shiftLine]
+
+/-- epytext splits on `'\n'` only: no hypothesis needed -/
+theorem reportedLineS_epytext (sl : Nat) (doc : List Char) (ln : Int) (im : Bool) (c : Construct) :
+    reportedLineS .epytext sl doc ln im c = reportedLine .epytext sl doc ln im c := by
+  simp only [reportedLineS]
+  cases reportedLine .epytext sl doc ln im c <;> simp [shiftLine]
+
+/-- `"""⏎    a<U+2028>b⏎⏎    :foo: bar⏎    """` on line 2: the field on physical line 5 is reported
+on line 6 in reStructuredText (and on 5 in epytext). -/
+theorem reportedLineS_counterexample :
+    let doc := ['\n', ' ', ' ', ' ', ' ', 'a', Char.ofNat 0x2028, 'b', '\n', '\n', ' ', ' ', ' ', ' ', ':', 'f', ':', ' ', 'x', '\n', ' ', ' ', ' ', ' ']
+    noExtraBreaksClean doc = false ∧ noOverIndent doc = true ∧
+      reportedLineS .rst 2 doc 1 false ⟨.unknownField, 3, 0⟩ = .num 6 ∧
+      reportedLine .rst 2 doc 1 false ⟨.unknownField, 3, 0⟩ = .num 5 ∧
+      reportedLineS .epytext 2 doc 1 false ⟨.unknownField, 3, 0⟩ = .num 5 := by decide
+
+/-! ### `versionadded` / `versionchanged` / `deprecated`: a reference in the directive's argument -/
+
+/-- Full statement wanted: the offset is `i`, the directive's line.  It is the line after the
+directive block instead (when the text goes on after the block). -/
+theorem version_arg_xref_offset (i span n : Int) (hi : 0 ≤ i) (hs : 0 ≤ span) (hn : i + span + 1 ≤ n - 1) :
+    versionArgXrefOffset i span n 0 = i + span + 1 := by
+  have h1 : min (i + span + 1) (n - 1) = i + span + 1 := by omega
+  have h2 : i + span + 1 + 1 ≠ 0 := by omega
+  simp [versionArgXrefOffset, getLineno, truthy, firstParentLineno, h1, h2]
+
+/-- right only when the directive is the last line of the docstring -/
+theorem version_arg_xref_partial (i n : Int) (hi : 0 ≤ i) (hn : n = i + 1) :
+    versionArgXrefOffset i 0 n 0 = i := by
+  subst hn
+  have h1 : min (i + 1) i = i := by omega
+  have h2 : i + 1 ≠ 0 := by omega
+  simp [versionArgXrefOffset, getLineno, truthy, firstParentLineno, h1, h2]
+
+/-- directive on cleaned line 2 with a body of 6 further lines, 11 lines in all: offset 9 -/
+theorem version_arg_xref_counterexample : versionArgXrefOffset 2 6 11 0 = 9 := by decide
+
+/-! ### reST section titles -/
+
+/-- the underline's line, not the title's (`i`): full statement wanted `= i + j` -/
+theorem section_title_xref_offset (i j : Int) (hi : 0 ≤ i) :
+    sectionTitleXrefOffset docutilsBase i j = i + 1 + j := by
+  have h : i + 1 + 1 ≠ 0 := by omega
+  simp [sectionTitleXrefOffset, docutilsBase, getLineno, truthy, firstParentLineno, h]
+
+/-- the second report made while the table of contents is rendered: the docstring's first line -/
+theorem toc_xref_offset : tocXrefOffset = 0 := by decide
+
+theorem section_title_counterexample :
+    sectionTitleXrefOffset docutilsBase 4 0 = 5 ∧ tocXrefOffset = 0 := by decide
+
 end Lineno
